@@ -319,15 +319,31 @@ package keeper
 //@   props C15
 //@   pure
 //@   loop IterateBeacons.0: invariant it_store == bea_store && bea_store == old(bea_store)
+// The timestamp listing of the genesis export (C15): the newest 20,000 timestamps of the registration (all of them when
+// there are fewer), in ascending id order, each in its genesis form exactly as stored, and without gaps - every stored
+// timestamp at or above the lowest exported id is in the list.
 //@ func Keeper.GetAllBeaconTimestampsForExport(ctx, beaconID) (timestamps)
 //@   props C15
 //@   pure
+//@   requires forall t int :: {bea_store[kTs(beaconID, t)]} tsHas(bea_store, beaconID, t) ==> 0 <= t && t < 2^64 && tsGet(bea_store, beaconID, t).TimestampId == t
+//@   let bs := timestamps
+//@   ensures @at_most_the_cap len(bs) <= 20000
+//@   ensures @ascending forall i int, j int :: {bs[i], bs[j]} 0 <= i && i < j && j < len(bs) ==> bs[i].Id < bs[j].Id
+//@   ensures @as_stored forall j int :: {bs[j]} 0 <= j && j < len(bs) ==> tsHas(bea_store, beaconID, bs[j].Id) && bs[j] == tsExp(tsGet(bea_store, beaconID, bs[j].Id))
+//@   ensures @newest_without_gaps forall t uint64 :: {bea_store[kTs(beaconID, t)]} tsHas(bea_store, beaconID, t) && (len(bs) < 20000 || t >= bs[0].Id) ==> exists j int :: 0 <= j && j < len(bs) && bs[j].Id == t
 //@   loop IterateBeaconTimestampsReverse.0: invariant it_store == bea_store && bea_store == old(bea_store)
+//@   loop IterateBeaconTimestampsReverse.0: invariant it_valid ==> isTsKey(it_key) && tsKeyId(it_key) == beaconID && tsHas(bea_store, beaconID, tsKeyT(it_key))
+//@   loop IterateBeaconTimestampsReverse.0: invariant len(timestamps) == count && 0 <= count && count < 20000
+//@   loop IterateBeaconTimestampsReverse.0: invariant forall j int :: {timestamps[j]} 0 <= j && j < len(timestamps) ==> tsHas(bea_store, beaconID, timestamps[j].Id) && timestamps[j] == tsExp(tsGet(bea_store, beaconID, timestamps[j].Id)) && (it_valid ==> tsKeyT(it_key) < timestamps[j].Id)
+//@   loop IterateBeaconTimestampsReverse.0: invariant forall i int, j int :: {timestamps[i], timestamps[j]} 0 <= i && i < j && j < len(timestamps) ==> timestamps[i].Id < timestamps[j].Id
+//@   loop IterateBeaconTimestampsReverse.0: invariant forall t uint64 :: {bea_store[kTs(beaconID, t)]} tsHas(bea_store, beaconID, t) && (!it_valid || t > tsKeyT(it_key)) ==> exists j int :: 0 <= j && j < len(timestamps) && timestamps[j].Id == t
 // copy() on overlapping slices is outside the generator's subset: assumed contract on this four-line helper
 //@ func prependTimestamp(x, y) (r)
 //@   trusted shifts the list by one with the builtin copy and puts y first; touches no state
 //@   pure
 //@   ensures len(r) == len(x) + 1 && r[0] == y
+//@   ensures forall i int :: {x[i]} 0 <= i && i < len(x) ==> r[i+1] == x[i]
+//@   ensures forall i int :: {r[i]} 1 <= i && i < len(r) ==> r[i] == x[i-1]
 
 // ================================================================ point queries (C07, C20): the stored value of exactly that key
 //@ func Keeper.Beacon(c, req) (resp, err)
